@@ -30,6 +30,7 @@ const mod = sym.HeliosModule
 var proxyStubs = map[string]string{
 	"(*net/http/httputil.ReverseProxy).ServeHTTP": mod + "/internal/loadbalancer.verifStubProxy",
 	"(*net/http.Client).Do":                       mod + "/internal/loadbalancer.verifClientDo",
+	"net/http.TimeoutHandler":                     mod + "/cmd/helios.verifTimeoutHandler",
 }
 
 // configStubs: LoadConfig runs for real except for the file system and the YAML parser.
@@ -464,6 +465,11 @@ func propC13() *Prop {
 				}
 			}
 			js = append(js, threadJob(lbJob("C13b/two-interleaved-requests[gauge and mirror at quiescence]", "VerifC13Interleaved"), int(tierPick(tier, 2, 3))))
+			if tier != "thorough" {
+				jb := lbJob("C13a/accounting[round_robin,breaker,k=2,arbitrary health=1: the no-healthy-backend 503 under the breaker]", "VerifC13Accounting", 0, 1, 2, 1)
+				jb.MaxPaths = 400000
+				js = append(js, jb)
+			}
 			ji := lbJob("C13a/accounting[round_robin,passive,k=2,healthy,backend may send an interim 103 first]", "VerifC13Accounting", 0, 4+8, 2, 0)
 			js = append(js, ji)
 			js = append(js, lbJob("C13a/accounting[round_robin,passive,k=2,healthy,the client may have disconnected (cancelled request context)]", "VerifC13Accounting", 0, 4+16, 2, 0))
@@ -517,6 +523,13 @@ func propC03() *Prop {
 					}
 					js = append(js, lbJob(fmt.Sprintf("C03/fault-sequences[%s,%s,k=%d]", strategyNames[s], featNames[f], k), "VerifC03Faults", s, f, k))
 				}
+			}
+			for s := int64(0); s < 3; s++ {
+				j := job(fmt.Sprintf("C03/no-permanent-degradation[%s,N=2: an ejected backend serves again after its window while the other one stays healthy]", strategyNames[s]), "loadbalancer", "VerifC04Recovery", s, 2)
+				if s == 0 {
+					rrJob(j)
+				}
+				js = append(js, j)
 			}
 			js = append(js, lbJob("C03/timeouts-never-disabled", "VerifC03Timeouts"))
 			js = append(js, mainJob("C03/full-handler-stack[breaker+limiter+passive]", "VerifStack", 7, 2, 0))
@@ -662,6 +675,7 @@ func propC18() *Prop {
 				j.MaxPaths = 2000000
 				js = append(js, j)
 			}
+			js = append(js, job("C18c/documented-log-levels-select-their-level[omitted = info]", "logging", "VerifC18LogLevels"))
 			js = append(js, job("C18b/yaml-typed-plugin-options", "plugins", "VerifC18PluginOptions"))
 			js = append(js, job("C18b/plugin-config-block-omitted-empty-or-partial[6 built-ins x 4 forms]", "plugins", "VerifC18PluginOmissions"))
 			js = append(js, mainJob("C18c/accepted-config-starts", "VerifC18Starts", tierPick(tier, 0, 1)))
@@ -699,6 +713,9 @@ func propC10() *Prop {
 				js = append(js, j)
 			}
 			js = append(js, job("C10b/filter-through-the-public-constructor[7 list entries x 7 x 10 peer spellings incl. IPv4-mapped and zoned IPv6]", "adminapi", "VerifC10Catalogue"))
+			jt := job("C10a/token-as-loaded-from-the-file[7 tokens incl. $-syntax x 6 presented values, real LoadConfig + NewLoadBalancer + NewMux]", "adminapi", "VerifC10LoadedToken")
+			jt.Stubs = configStubs
+			js = append(js, jt)
 			js = append(js, job("C10c/header-independence", "adminapi", "VerifC10Headers"))
 			js = append(js, job("C10d/fail-closed", "adminapi", "VerifC10FailClosed"))
 			return js
@@ -720,6 +737,13 @@ func propC11() *Prop {
 			for k := int64(2); k <= tierPick(tier, 3, 4); k++ {
 				j := lbJob(fmt.Sprintf("C11a/model-based-histories[k=%d]", k), "VerifC11History", k)
 				j.MaxPaths = 3000000
+				js = append(js, j)
+			}
+			for s := int64(0); s < 5; s++ {
+				j := lbJob(fmt.Sprintf("C11a/remove-after-traffic[%s, 3 backends, 2 clients]", strategyNames[s]), "VerifC11RemoveAfterTraffic", s)
+				if s == 0 {
+					rrJob(j)
+				}
 				js = append(js, j)
 			}
 			for k := int64(1); k <= tierPick(tier, 2, 3); k++ {
@@ -751,6 +775,7 @@ func propC20() *Prop {
 			}
 			js = append(js, threadJob(lbJob("C20a/pool-as-the-balancer-builds-it[real validation + setupWebSocketPool, max_idle 1..3, max_active 0..4, idle_timeout 1..600 s]", "VerifC20Wiring"), 1))
 			js = append(js, lbJob("C20b/hijack[balancer writer]", "VerifC20Hijack"))
+			js = append(js, mainJob("C20b/upgrade-requests-through-the-real-handler-stack[no timer on the tunnel's context, whatever server.timeouts.handler; plugins apply]", "VerifStack", 0, 1, 0))
 			for i, n := range []string{"cleanup || Put", "Get || Get", "Put || Shutdown", "first Put of a new backend || Shutdown"} {
 				js = append(js, threadJob(lbJob("C20c/concurrent["+n+"]", "VerifC20Concurrent", int64(i)), int(tierPick(tier, 2, 3))))
 			}
@@ -787,6 +812,7 @@ var pairNames = []string{
 }
 
 var metricsOps = []string{"GetMetrics", "RecordRequest", "RecordResponse", "RecordBackendRequest", "UpdateBackendHealth", "UpdateBackendConnections", "SyncBackendConnections", "RecordRateLimitedRequest", "UpdateCircuitBreakerState"}
+var lbOps = []string{"request served 200", "request answered 503 (passive checks)", "AddBackend", "RemoveBackend", "SetStrategy", "ListBackends", "probe fails", "probe succeeds", "GetMetrics"}
 var breakerOps = []string{"Execute(ok)", "Execute(fail)", "State", "Counts", "GetMetrics"}
 
 func propC12() *Prop {
@@ -805,6 +831,11 @@ func propC12() *Prop {
 					for warm := int64(0); warm < 2; warm++ {
 						js = append(js, threadJob(lbJob(fmt.Sprintf("C12/metrics[%s || %s,%s]", a, metricsOps[jx], []string{"first sight of backend and breaker", "known backend and breaker"}[warm]), "VerifC12Metrics", int64(i), int64(jx), warm), int(tierPick(tier, 2, 3))))
 					}
+				}
+			}
+			for i, a := range lbOps {
+				for jx := i; jx < len(lbOps); jx++ {
+					js = append(js, threadJob(lbJob(fmt.Sprintf("C12/balancer[%s || %s]", a, lbOps[jx]), "VerifC12LB", int64(i), int64(jx)), 2))
 				}
 			}
 			for i, a := range breakerOps {
